@@ -6,7 +6,8 @@ TRUSTED = pC01.TRUSTED + ["constructor typing is the C06 model (resultIR) and it
 ASSUMPTIONS = pC01.ASSUMPTIONS + ["construction programs are well-typed"]
 RULE = ("construction programs over the public API: (a) M-Core modules built with NewTypeDef/NewGlobalDef/constant.Int: model text == printed text, re-parse gives the same "
         "names/widths/values and a stable text; (b) every instruction constructor on generated well-typed operand tuples: the constructor accepts and computes LLVM's type "
-        "(typ.ok oracle of C06); (c) constructed functions of generated shapes are numbered like their parsed twins (num.check oracle of C08); non-trivial = distinct program")
+        "(typ.ok oracle of C06); (c) constructed functions of generated shapes are numbered like their parsed twins (num.check oracle of C08); (d) call / invoke / callbr built on callees of generated signatures "
+        "(variadic or not, with 0..2 extra arguments): the type spelled at the call site equals the model's (proved to be read back by LLVM as the callee's signature); non-trivial = distinct program")
 
 
 def gen(tier, rng, harness, driver):
@@ -16,6 +17,13 @@ def gen(tier, rng, harness, driver):
         ts, gs = coregen.gen_core(rng)
         a = coregen.args(ts, gs)
         lines += ["core.print " + a, "!core.rt " + a]
+    # call sites: the callee type spelled by call / invoke / callbr for generated signatures (variadic or not, with and without extra arguments)
+    from . import tygen
+    for _ in range(300 if tier == "quick" else 20000):
+        ret = tygen.gen_ty(rng, rng.randint(0, 2), True) if rng.random() < 0.7 else "v"
+        ps = [tygen.gen_ty(rng, rng.randint(0, 2), True) for _ in range(rng.randint(0, 3))]
+        var = rng.random() < 0.5
+        lines.append("cs.type %s %s(%s;%s) %d" % (rng.choice(["call", "invoke", "callbr"]), "G" if var else "F", ret, ",".join(ps), rng.choice([0, 0, 1, 2]) if var else 0))
     # constructors: reuse the C06 / C08 generators (oracle lines only)
     for l in pC06.gen("quick" if tier == "quick" else "thorough", rng, harness, driver)[: (600 if tier == "quick" else 40000)]:
         if l.startswith(("!typ.ok", "typ.ir")):
@@ -27,4 +35,10 @@ def gen(tier, rng, harness, driver):
 
 
 nontrivial = pC01.nontrivial
-search = pC01.search
+
+
+def search(ln, a, b, harness, driver):
+    if ln.startswith("cs.type"):
+        # the disagreeing operation IS the failing input: the spelled callee type differs from the one LLVM needs (theorem call_site_denotes_callee)
+        return {"ops": [ln], "impl": [a], "model": [b]}
+    return pC01.search(ln, a, b, harness, driver)
